@@ -319,7 +319,14 @@ def _stores(stmt):
 
 
 def _loads(node):
-    return {n.id for n in ast.walk(node) if isinstance(n, ast.Name) and isinstance(n.ctx, ast.Load)}
+    """names read by a statement, not counting the loop variables of its own comprehensions (they are bound inside it)"""
+    own = set()
+    for n in ast.walk(node):
+        if isinstance(n, ast.comprehension):
+            for t in ast.walk(n.target):
+                if isinstance(t, ast.Name):
+                    own.add(t.id)
+    return {n.id for n in ast.walk(node) if isinstance(n, ast.Name) and isinstance(n.ctx, ast.Load)} - own
 
 
 class Relayout:
